@@ -12,6 +12,8 @@ from fractions import Fraction
 
 import numpy as np
 
+from pwlib.share import shcopy
+
 from pwlib import gens
 from pwlib.canon import flat
 from pwlib.engine import Case
@@ -407,7 +409,7 @@ def make_uplook(spec):
             return out
         if r[0] == "err":
             return [("uplook/no-raise", "up=%s look=%s raised %s" % (up, look, r[1]))]
-        Rm = rotation_from_up_and_look(U.copy(), L.copy())
+        Rm = rotation_from_up_and_look(shcopy(U), shcopy(L))
         if Rm.shape != (3, 3) or Rm.dtype != np.float64:
             return [("uplook/float64", "result has shape %s dtype %s" % (Rm.shape, Rm.dtype))]
         if all(float(x).is_integer() for x in list(U) + list(L)):
@@ -432,7 +434,7 @@ def make_uplook(spec):
         return dedupe(out)
 
     mode = "both"
-    return [Case(spec, line, lambda: flat(rotation_from_up_and_look(U.copy(), L.copy())), mode=mode, klass=kl, scale=1.0,
+    return [Case(spec, line, lambda: flat(rotation_from_up_and_look(shcopy(U), shcopy(L))), mode=mode, klass=kl, scale=1.0,
                  oracle=oracle)]
 
 
@@ -489,7 +491,7 @@ def affine_oracle(key, get, action, invertible=True, tol=F(1, 10 ** 12)):
 def make_rot(spec):
     from polliwog.transform import transform_matrix_for_rotation
     R = quat_rot(spec["q"]) if "q" in spec else np.array(spec["R"], dtype=np.float64)
-    f = lambda inv: transform_matrix_for_rotation(R.copy(), ret_inverse_matrix=inv)
+    f = lambda inv: transform_matrix_for_rotation(shcopy(R), ret_inverse_matrix=inv)
     is_rot = spec["stream"] != "any3x3"
     RF = FM(R)
     orc = affine_oracle("rotation", lambda: (*f(True), f(False)), lambda p: mvec(RF, p), invertible=is_rot)
@@ -500,10 +502,10 @@ def make_rot(spec):
 def make_rot_rodvec(spec):
     from polliwog.transform import rodrigues_vector_to_rotation_matrix, transform_matrix_for_rotation
     r = np.array(spec["r"], dtype=np.float64)
-    f = lambda inv: transform_matrix_for_rotation(r.copy(), ret_inverse_matrix=inv)
+    f = lambda inv: transform_matrix_for_rotation(shcopy(r), ret_inverse_matrix=inv)
 
     def oracle(res):
-        R3 = FM(rodrigues_vector_to_rotation_matrix(r.copy()))
+        R3 = FM(rodrigues_vector_to_rotation_matrix(shcopy(r)))
         out = affine_oracle("rotation-rodvec", lambda: (*f(True), f(False)), lambda p: mvec(R3, p))(res)
         A = FM(f(False))
         blk = [row[:3] for row in A[:3]]
@@ -521,7 +523,7 @@ def make_rot_shape(spec):
 def make_trans(spec):
     from polliwog.transform import transform_matrix_for_translation
     v = np.array(spec["v"], dtype=np.float64)
-    f = lambda inv: transform_matrix_for_translation(v.copy(), ret_inverse_matrix=inv)
+    f = lambda inv: transform_matrix_for_translation(shcopy(v), ret_inverse_matrix=inv)
     fv = [Fr(x) for x in v]
     orc = affine_oracle("translation", lambda: (*f(True), f(False)), lambda p: [a + b for a, b in zip(p, fv)], tol=F(0))
     return [Case(spec, Line("c11.aff.trans").vec(v), pair_impl(f), mode="both", klass="aff.trans/" + spec["stream"],
@@ -593,14 +595,14 @@ def make_apply(spec):
     from polliwog.transform import apply_transform
     M = np.asarray(build_matrix(spec["M"]), dtype=np.float64)
     pts = points_of(spec, spec["k"])
-    P = np.array(pts, dtype=np.float64).reshape(-1, 3)
+    P = np.array(np.reshape(pts, (-1, 3)), dtype=np.float64)
     single = spec["single"] and len(pts) == 1
     dz, av = spec["dz"], spec["av"]
     width = 2 if dz else 3
-    arg = (lambda: P[0].copy()) if single else (lambda: P.copy())
+    arg = (lambda: shcopy(P[0])) if single else (lambda: shcopy(P))
 
     def run():
-        return apply_transform(M.copy())(arg(), discard_z_coord=dz, treat_input_as_vector=av)
+        return apply_transform(shcopy(M))(arg(), discard_z_coord=dz, treat_input_as_vector=av)
 
     def impl():
         r = np.asarray(run())
@@ -624,7 +626,7 @@ def make_apply(spec):
             if any(abs(Fr(g) - x) > tol for g, x in zip(got[i], want)):
                 out.append(("apply/homogeneous-w%d" % w, "apply(%s) = %s, M.(p,%d) = %s" % (p.tolist(), got[i].tolist(), w, [float(x) for x in want])))
             # a stack is the single call row by row
-            one = np.asarray(apply_transform(M.copy())(p.copy(), discard_z_coord=dz, treat_input_as_vector=av))
+            one = np.asarray(apply_transform(shcopy(M))(shcopy(p), discard_z_coord=dz, treat_input_as_vector=av))
             if one.shape != (width,) or any(abs(Fr(a) - Fr(b)) > tol for a, b in zip(one, got[i])):
                 out.append(("apply/stack-is-map", "row %d of the stacked result differs from the single call" % i))
         return dedupe(out)
@@ -682,14 +684,14 @@ def make_compose(spec):
         # not the last one is non-affine: that is the listed finding compose/order/non-affine; for affine prefixes a
         # difference is a new violation (compose/left-to-right).
         affine = [list(M[3]) == [0.0, 0.0, 0.0, 1.0] for M in Ms]
-        pts = np.array(points_of(spec, 3), dtype=np.float64).reshape(-1, 3)
-        got = apply_transform(compose_transforms(*[M.copy() for M in Ms]))(pts.copy())
+        pts = np.array(np.reshape(points_of(spec, 3), (-1, 3)), dtype=np.float64)
+        got = apply_transform(compose_transforms(*[M.copy() for M in Ms]))(shcopy(pts))
         step = [[Fr(x) for x in p] for p in pts]
         seq = pts.copy()
         for M in Ms:
             A = FM(M)
             step = [mvec(A, p + [F(1)])[:3] for p in step]
-            seq = apply_transform(M.copy())(seq)          # the real code, one transform after the other
+            seq = apply_transform(shcopy(M))(seq)          # the real code, one transform after the other
         mag = max([abs(x) for p in step for x in p] + [Fr(scale) * max(Fr(gens.maxabs(pts)), 1)])
         key = "compose/left-to-right" if all(affine[:-1]) else "compose/order/non-affine"
         for g, s_, q, p in zip(got, step, seq, pts):
